@@ -43,4 +43,6 @@ CHECKS = {
     "C17": seq(["TestC17"]),
     "C18": seq(["TestC18Seq", "TestC18Race"], per_test={"TestC18Race": SCRIPT}),
     "C19": seq(["TestC19"]),
+    "C20": seq(["TestC20"], qchecks=2, tchecks=40, qshards=6),
+    "C16": seq(["TestC16"], qchecks=8, tchecks=300, qshards=6),
 }
